@@ -35,6 +35,71 @@ def cast_label(call):
     return None
 
 
+def rule_dispatch(ctx, rep, rid="R-C12-dispatch"):
+    """Every request must reach the function that answers it.  In LspServer::run's loop over the receiver: no path from taking a
+    message to the next iteration avoids the match on the message's kind, and on the Request arm every path to the next iteration
+    goes through handle_request (the only other ways out are the returns: shutdown / error).  A test placed before the match
+    (`if skip(&msg) { continue }`) silently drops requests: the client waits for ever."""
+    r = rep.rule(rid, "LspServer::run: each message taken from the receiver is dispatched on its kind before the next one is taken, and every Request "
+                      "that does not end the loop is passed to handle_request", floor=2, floor_what="back-edges + Request arm")
+    hb = ctx.prog.get(LSP + "::run")
+    if not hb:
+        rep.error(rid, "LspServer::run not found")
+        return
+    b = hb[0]
+    heads = [c.bb for c in b.calls() if (c.u or "") == "core::iter::traits::iterator::Iterator::next" and "Receiver" in ((c.ga or "") + (c.callee or "")) or
+             (c.u or "") == "core::iter::traits::iterator::Iterator::next" and "crossbeam_channel" in (c.callee or "")]
+    if len(heads) != 1:
+        r.finding("run|loop-head", "%s:%d" % (b.f["file"], b.f["line"]), "expected one loop over the receiver, found %d" % len(heads))
+        return
+    head = heads[0]
+    dom = b.dominators()
+    inloop = b.reachable(head)
+    kinds = []
+    for i in sorted(inloop):
+        si = switch_info(b, i)
+        if si and si["kind"] == "disc" and si.get("adt") == "lsp_server::msg::Message":
+            kinds.append((i, si))
+    if not kinds:
+        r.finding("run|no-dispatch", "%s:%d" % (b.f["file"], b.f["line"]), "the loop does not match on the kind of the message")
+        return
+    S, si = kinds[0]
+    # back-edges
+    k = 0
+    for x in sorted(inloop):
+        if head in b.succ(x) and x != head and head in dom.get(x, set()):
+            k += 1
+            if S in dom.get(x, set()):
+                r.ok("run|back-edge#%d" % k, loc_str(b.f, b.term(x)[-1]) if isinstance(b.term(x)[-1], list) else "%s:%d" % (b.f["file"], b.f["line"]), "after the match on the message kind")
+            else:
+                # where does the path leave the straight line to the match?
+                r.finding("run|message-skipped-before-dispatch", "%s:%d" % (b.f["file"], b.f["line"]), "a path takes the next message without matching on the kind of the current one: "
+                          "a request on that path is never passed to handle_request and gets no response")
+    # Request arm
+    req = [succ for succ, labs in si["edges"].items() if "Request" in [str(l) for l in labs]]
+    if not req:
+        r.finding("run|no-request-arm", "%s:%d" % (b.f["file"], b.f["line"]), "the match has no arm for Message::Request")
+        return
+    hr = {c.bb for c in b.calls() if (c.callee or "").startswith(LSP + "::") and (c.callee or "").endswith("::handle_request")}
+    if not hr:
+        r.finding("run|Request arm|no-handler", "%s:%d" % (b.f["file"], b.f["line"]), "handle_request is not called")
+        return
+    seen, st, bad = set(), [req[0]], False
+    while st:
+        x = st.pop()
+        if x in seen or x in hr:
+            continue
+        seen.add(x)
+        if x == head:
+            bad = True
+            break
+        st.extend(b.succ(x))
+    if bad:
+        r.finding("run|Request arm|request-not-handled", "%s:%d" % (b.f["file"], b.f["line"]), "on the Request arm a path reaches the next iteration without calling handle_request: that request is never answered")
+    else:
+        r.ok("run|Request arm", "%s:%d" % (b.f["file"], b.f["line"]), "every path to the next iteration goes through handle_request; the others return")
+
+
 def rule_reply(ctx, rep):
     r = rep.rule("R-C12-reply", "in handle_request every path to a normal return sends exactly one response carrying req.id "
                                 "(the Shutdown arm is exempt only because run() intercepts shutdown first)", floor=3, floor_what="exit classes")
@@ -307,6 +372,7 @@ def run(ctx, rep):
     run_inventory(ctx, rep, r, entries, tri)
     rule_run(ctx, rep)
     rule_reply(ctx, rep)
+    rule_dispatch(ctx, rep)
     rule_quiet(ctx, rep)
     rule_exit(ctx, rep)
     # the invariant the map_label slice triage relies on (offsets belong to the current text), re-verified here
